@@ -53,6 +53,10 @@ type Options struct {
 	// that determines future behaviour and the oracle.  Together with the
 	// scheduler's own state it is used for visited-state pruning.
 	StateKey func() string
+	// TickOnNow: every read of the model clock may first advance it by one
+	// nanosecond (explorer choice, one deviation): the clock is monotone
+	// but it moves between any two reads.
+	TickOnNow bool
 	// KeySteps adds every thread's own step count to the state key (a
 	// program-counter proxy for straight-line thread bodies whose position
 	// the harness key does not already determine).
@@ -244,6 +248,15 @@ func (s *Sched) Spawn(name string, f func()) *Thread { return s.newThread(name, 
 
 // Now returns the model time.
 func (s *Sched) Now() time.Time { return s.now }
+
+// ReadClock is what instrumented code gets from time.Now(): with TickOnNow
+// the clock may move by 1ns just before it is read.
+func (s *Sched) ReadClock() time.Time {
+	if s.opt.TickOnNow && s.C.Choose("clock-tick", 2) == 1 {
+		s.now = s.now.Add(time.Nanosecond)
+	}
+	return s.now
+}
 
 // Threads returns all threads.
 func (s *Sched) Threads() []*Thread { return s.threads }
